@@ -10,6 +10,12 @@ LEVEL = "proof"
 PID = "C13"
 
 
+
+def utils_fn(F, name):
+    """a helper of the shared utils module, wherever in it it lives (found by name: moving it between files is not a change)"""
+    c = [g for k, g in F.by_key.items() if g.evaluator is None and g.kind != "Closure" and k.split("::")[-1] == name and k.startswith("utils::")]
+    return c[0] if len(c) == 1 else None
+
 def node_ctor_of_function(m, name):
     arms, after = m.prim_functions()
     tv = m.tokvar(name)
@@ -138,7 +144,7 @@ def main(tier):
 
 def superscript_checks(run, F, models, tag):
     # the shared superscript scanner maps each superscript digit to its digit
-    f = F.by_key.get("utils::superscript::superscript_digit_to_digit")
+    f = utils_fn(F, "superscript_digit_to_digit")
     if f is None:
         run.ob(False, "anchor|superscript_digit_to_digit", "%s " % tag + "anchor", "utils", "superscript_digit_to_digit not found")
     else:
@@ -154,7 +160,7 @@ def superscript_checks(run, F, models, tag):
         want = dict(zip(spec.SUPERSCRIPTS, "0123456789"))
         run.ob(got == want, "superscript-map", "%s each superscript digit denotes its digit" % tag, f.key, "map %s" % got, sample={"superscript_map": got})
     # the shared superscript scanner collects the whole run of superscript digits, mapped digit by digit
-    f = F.by_key.get("utils::deserialize_superscript_number::deserialize_superscript_number")
+    f = utils_fn(F, "deserialize_superscript_number")
     if f is None:
         run.ob(False, "anchor|deserialize_superscript_number", "%s " % tag + "anchor", "utils", "deserialize_superscript_number not found")
     else:
